@@ -16,7 +16,7 @@ def trace_cfg(run):
 
 def model(run):
     res = core.tlc("mc/MC_C20.tla", "mc/MC_C20.cfg", workers=1, coverage=True, timeout=600, xmx="4g")
-    core.check_coverage(res)
+    core.check_coverage(res, ignore=("SkipUpToDate",))   # enabled only in the refuted design SkipWhenSame
     run.add_tlc(res, "Delivery.tla: compile() as internal_compile / open / write over every mode x destination state x input class")
     plans = res.printed("CASE")
     if len(plans) < 600:
@@ -26,6 +26,8 @@ def model(run):
     neg = core.tlc("mc/MC_C20.tla", "mc/MC_C20_noflush.cfg", workers=1, timeout=600, xmx="4g", expect_violation=True)
     run.cov["design_variant_refuted"] = {"no flush of standard output before compile() returns": neg.violated}
     # ... and the design that reports a failing formatter as Err after the text has been delivered
+    neg3 = core.tlc("mc/MC_C20.tla", "mc/MC_C20_skipsame.cfg", workers=1, timeout=600, xmx="4g", expect_violation=True)
+    run.cov.setdefault("negative_models_refuted", {})["delivery_skipped_when_destination_reads_as_the_text"] = neg3.violated
     neg = core.tlc("mc/MC_C20.tla", "mc/MC_C20_fmterr.cfg", workers=1, timeout=600, xmx="4g", expect_violation=True)
     run.cov["design_variant_refuted"]["a failing rustfmt reported as Err after delivery"] = neg.violated
     return plans
